@@ -382,6 +382,96 @@ def oracle_x(exprs, outs):
 
 
 # ---------------------------------------------------------------------------------------------
+# stylesheet-level stream (vlib/xsltrun.py): unions over the source document, result tree fragments turned into
+# node-sets and documents loaded with document(); nodes are identified by generate-id()
+
+S_SOURCE = "<s><t/><u k='1'><v/><v/></u><t/></s>"
+S_FILES = {"d1.xml": "<x><y/><z><y/></z></x>", "d2.xml": "<y><y/></y>"}
+S_POOL = ["/", "//*", "//t", "//v/ancestor::*", "//u/@k", "//v[2]/preceding::*", "x:nodeset($r1)", "x:nodeset($r1)//*", "x:nodeset($r1)/a",
+          "x:nodeset($r2)/*", "x:nodeset($r1)//b/ancestor-or-self::node()", "x:nodeset($r2)", "document('d1.xml')//*", "document('d1.xml')",
+          "document('d2.xml')//y", "document('d1.xml')//y", "//t[2]", "x:nodeset($r1)/c"]
+
+
+def s_sheet(exprs):
+    body = []
+    for k, e in enumerate(exprs):
+        body.append('<xsl:text>&#10;%d:</xsl:text><xsl:for-each select="%s"><xsl:value-of select="generate-id()"/>/<xsl:value-of select="generate-id(ancestor-or-self::node()[last()])"/>,</xsl:for-each>' % (k, e))
+    return ('<xsl:stylesheet version="1.0" xmlns:xsl="http://www.w3.org/1999/XSL/Transform" xmlns:x="http://xml.apache.org/xalan">'
+            '<xsl:output method="text"/><xsl:variable name="r1"><a><b/></a><c/></xsl:variable><xsl:variable name="r2"><p/><q/></xsl:variable>'
+            '<xsl:template match="/">F:<xsl:value-of select="generate-id(x:nodeset($r1))"/>,<xsl:value-of select="generate-id(x:nodeset($r2))"/>' + "".join(body) + '</xsl:template></xsl:stylesheet>')
+
+
+def s_cases(r, n):
+    out = []
+    for k in range(n):
+        A, B, C = r.choice(S_POOL), r.choice(S_POOL), r.choice(S_POOL)
+        exprs = [A, B, C, "%s | %s" % (A, B), "%s | %s" % (B, A), "(%s | %s) | %s" % (A, B, C), "%s | (%s | %s)" % (A, B, C), "%s | %s" % (A, A)]
+        out.append({"id": "s%d" % k, "sheet": s_sheet(exprs), "source": S_SOURCE, "files": S_FILES, "exprs": exprs})
+    return out
+
+
+def s_oracle(case, text):
+    """returns (problem or None, known class or None)"""
+    lines = text.split("\n")
+    frag = set(lines[0][2:].split(","))
+    res = {}
+    for l in lines[1:]:
+        k, _, body = l.partition(":")
+        res[int(k)] = [tuple(x.split("/")) for x in body.split(",") if x]
+    ex = case["exprs"]
+    if len(res) != len(ex):
+        return "output has %d result lines for %d expressions" % (len(res), len(ex)), None
+    trees = set()
+    for k, e in enumerate(ex):
+        v = res[k]
+        ids = [i for i, _ in v]
+        roots = [t for _, t in v]
+        trees.update(roots)
+        multi = len(set(roots)) > 1
+        if len(set(ids)) != len(ids):
+            return "%s: a node occurs twice" % e, ("F7" if multi else None)
+        seen, cur = set(), None
+        for t in roots:
+            if t != cur:
+                if t in seen:
+                    return "%s: nodes of different trees are interleaved" % e, "F7"
+                seen.add(t); cur = t
+        for pos, (i, t) in enumerate(v):
+            if i == t and pos > 0 and roots[pos - 1] == t:
+                return "%s: the root node of a tree comes after nodes of that tree" % e, ("RTF-ROOT" if i in frag else None)
+    A, B, C, AB, BA, AB_C, A_BC, AA = [res[k] for k in range(8)]
+    multi = len(trees) > 1
+    canon = (lambda v: sorted(v)) if multi else (lambda v: v)    # several trees: block order is not determined, compare as sets
+    fragroot = any(i in frag for v in (A, B, C) for i, _ in v)
+    if set(AB) != set(A) | set(B):
+        return "%s is not the union of its operands" % ex[3], None
+    if canon(AB) != canon(BA):
+        return "union not commutative: %s vs %s" % (ex[3], ex[4]), ("RTF-ROOT" if fragroot else None)
+    if canon(AB_C) != canon(A_BC):
+        return "union not associative: %s vs %s" % (ex[5], ex[6]), ("RTF-ROOT" if fragroot else None)
+    if canon(AA) != canon(A):
+        return "union not idempotent: %s vs %s" % (ex[7], ex[0]), None
+    return None, None
+
+
+def evaluate_s(ctx, n):
+    from vlib import xsltrun
+    cases = s_cases(ctx.rng, n)
+    out = xsltrun.run(cases, timeout=300)
+    orc = []
+    for c in cases:
+        o = out.get(c["id"])
+        ctx.count("S:stylesheet-union")
+        ctx.cov["evaluations"] += len(c["exprs"])
+        replay_text = "# stylesheet case (source %s, files %s); expressions: %s" % (S_SOURCE, sorted(S_FILES), " ;; ".join(c["exprs"]))
+        if not o or o[0] != "ok":
+            orc.append({"case": replay_text, "what": "transformation failed: %r" % (o,), "known": None, "cls": "stylesheet"})
+            continue
+        msg, known = s_oracle(c, o[1].decode("utf-8", "replace"))
+        if msg:
+            orc.append({"case": replay_text, "what": msg, "known": known, "cls": "stylesheet"})
+    return orc
+
 
 def l_case(cid, docs, ops):
     return "%s|L|%s|O:%s" % (cid, "|".join(d.field for d in docs), " ".join(ops))
@@ -544,6 +634,10 @@ def run(ctx):
     cases = corpus + make_cases(ctx, 2 if not ctx.thorough else 16, impl)
     ctx.cov["samples"] = [c["line"][:300] for c in cases[:3] + cases[len(cases) // 2: len(cases) // 2 + 3]]
     corr, orc = evaluate(ctx, cases, impl, model)
+    try:
+        orc += evaluate_s(ctx, 60 if not ctx.thorough else 600)
+    except RuntimeError as e:
+        ctx.broken.append("stylesheet stream: " + str(e)[-300:])
     new = [o for o in orc if not (o["known"] and o["known"] in known)]
     if (corr or not proved or not model) and not new and not ctx.thorough:
         ctx.escalated = True
